@@ -10,6 +10,7 @@
    interleaving of the steps of any number of clients; a statement "forall acts" covers all. *)
 From Coq Require Import String List ZArith Bool Permutation.
 From GV Require Import Rules.KcModel Pool.Model Pool.Proofs.
+From GV Require Pool.Progress.
 Import ListNotations.
 
 (* 0. the invariant holds initially and is preserved by every step *)
@@ -86,3 +87,63 @@ Theorem C17_example_busy :
   exists s, csteps (cap_init 1 2) [AGet 7; AGet 8] = Some s /\ cstep s (AGet 9) = None.
 Proof. exact cap_example_busy. Qed.
 Print Assumptions C17_example_busy.
+
+(* 8. WAITING, with the locks in the picture (Pool/Progress.v): requests (isCleared ; wait for an instance holding
+      nothing ; snapshot ; [read the model] ; rules, which may update the pool from inside b times ; hand-back),
+      updates (updateLock ; stateLock) and queries (updateLock) as one transition system over any number of
+      threads and M >= 1 instances, sync.RWMutex with writer preference.  [ts] lists where every thread is;
+      the lock state is derived from it.  That the code has this shape — whoever may wait holds no mutex of the
+      pool, one acquisition order, nothing acquired inside a read section — is the per-run obligation
+      obligations/GenWaitOk.v on the table T2 regenerates from engine/gengine_pool.go.
+
+      8a. in EVERY state in which some request, update or query is unfinished, somebody can move *)
+Theorem C17_waiting_never_deadlocks : forall M ts,
+  1 <= M -> existsb Progress.is_q2h ts = false -> Progress.all_done ts = false -> Progress.can_move M false ts = true.
+Proof. exact Progress.progress. Qed.
+Print Assumptions C17_waiting_never_deadlocks.
+
+(*    8b. every step is work and the work is finite: no schedule runs for more than [total ts] steps *)
+Theorem C17_no_schedule_runs_for_ever : forall M wl n ts ts',
+  Progress.steps M wl n ts ts' -> n + Progress.total ts' <= Progress.total ts.
+Proof. exact Progress.runs_are_bounded. Qed.
+Print Assumptions C17_no_schedule_runs_for_ever.
+
+(*    8c. hence, along ANY schedule, a run either can be continued or has served everybody — waiters included *)
+Theorem C17_every_schedule_serves_everyone : forall M n ts ts',
+  1 <= M -> existsb Progress.is_q2h ts = false -> Progress.steps M false n ts ts' ->
+  n <= Progress.total ts /\ (Progress.all_done ts' = true \/ exists ts'', Progress.step M false ts' ts'').
+Proof. exact Progress.every_schedule_serves_everyone. Qed.
+Print Assumptions C17_every_schedule_serves_everyone.
+
+Theorem C17_a_run_that_cannot_go_on_has_served_everyone : forall M n ts ts',
+  1 <= M -> existsb Progress.is_q2h ts = false -> Progress.steps M false n ts ts' ->
+  (forall ts'', ~ Progress.step M false ts' ts'') -> Progress.all_done ts' = true.
+Proof. exact Progress.a_run_that_cannot_go_on_has_served_everyone. Qed.
+Print Assumptions C17_a_run_that_cannot_go_on_has_served_everyone.
+
+(*    8d. a waiter needs a free instance and nothing else: no lock can keep it waiting *)
+Theorem C17_a_waiter_needs_only_a_free_instance : forall M ts b,
+  In (Progress.Q2 b) ts -> Progress.inuse ts < M -> Progress.next M false ts (Progress.Q2 b) = [Progress.Q3 b].
+Proof. exact Progress.waiter_needs_only_an_instance. Qed.
+Print Assumptions C17_a_waiter_needs_only_a_free_instance.
+
+(*    8e. the discipline matters: let the waiter hold the read lock while it waits for an instance, and one
+          instance, one request whose rule updates the pool and one more request reach a state in which
+          nobody can move and neither is finished; the code's system serves the same two requests *)
+Theorem C17_waiter_holding_the_read_lock_deadlocks :
+  exists ts, Progress.steps 1 true (length Progress.deadlock_schedule) [Progress.Q0 1; Progress.Q0 0] ts /\
+             Progress.all_done ts = false /\ Progress.can_move 1 true ts = false.
+Proof. exact Progress.deadlock_if_waiter_holds_rlock. Qed.
+Print Assumptions C17_waiter_holding_the_read_lock_deadlocks.
+
+Theorem C17_the_code_serves_those_requests :
+  exists sched, Progress.exec 1 false [Progress.Q0 1; Progress.Q0 0] sched = Some [Progress.Q6; Progress.Q6].
+Proof. exact Progress.same_requests_are_served_by_the_code. Qed.
+Print Assumptions C17_the_code_serves_those_requests.
+
+(*    8f. non-vacuity: a state with waiters, a pending writer, a reader-to-be and busy instances meets 8a's hypotheses *)
+Theorem C17_progress_applies_somewhere :
+  let ts := [Progress.Q2 0; Progress.Q2 1; Progress.Q3 0; Progress.QU1 2; Progress.Q0 0; Progress.P0; Progress.Q6; Progress.G0; Progress.Q3m 1] in
+  existsb Progress.is_q2h ts = false /\ Progress.all_done ts = false /\ Progress.can_move 2 false ts = true.
+Proof. exact Progress.progress_applies_somewhere. Qed.
+Print Assumptions C17_progress_applies_somewhere.
